@@ -132,6 +132,14 @@ class Exc:
 CONTRACTS = {}
 
 
+def only(*props):
+    """clause decorator: this clause decides only these properties (default: all the contract serves)"""
+    def deco(fn):
+        fn._serves = tuple(props)
+        return fn
+    return deco
+
+
 def contract(file, qualname, serves=()):
     def deco(cls):
         cls.file, cls.qualname = file, qualname
@@ -420,7 +428,7 @@ class Verifier:
         return None
 
     # ---------------------------------------------------------------- obligations
-    def emit(self, st, kind, label, goal, meta=None):
+    def emit(self, st, kind, label, goal, meta=None, serves=None):
         if goal.op == "bool" and goal.val:
             self.counter["trivial"] = self.counter.get("trivial", 0) + 1
             return
@@ -429,7 +437,7 @@ class Verifier:
         n = self.counter.get(key, 0)
         self.counter[key] = n + 1
         ob = Obligation("%s#%d" % (key, n), "%s:%s" % (c.file, c.qualname), kind, label, list(st.pc), goal,
-                        list(st.trace), tuple(c.serves), meta)
+                        list(st.trace), tuple(serves if serves is not None else c.serves), meta)
         self.obligations.append(ob)
 
     # ---------------------------------------------------------------- verifying one function
@@ -497,7 +505,7 @@ class Verifier:
                 pass
             for e in cls.ensures:
                 t = self.eval_clause(st, e, spec_env)
-                self.emit(st, "post", e.__name__, t)
+                self.emit(st, "post", e.__name__, t, serves=getattr(e, "_serves", None))
             # clauses over the final values of the function's own local variables
             for e in getattr(cls, "at_exit", ()):
                 envx = dict(st.frames[-1].locals, result=result, g=self.ghost_view(st), old=old)
@@ -510,7 +518,8 @@ class Verifier:
             cname = exc.cls.name
             if entry is None:
                 self.emit(st, "xpost", "no-" + cname, tm.FALSE,
-                          meta={"exception": cname, "args": repr(st.fields(exc).get("args"))})
+                          meta={"exception": cname, "args": repr(st.fields(exc).get("args"))},
+                          serves=getattr(cls, "exception_serves", None))
                 return
             spec_env = dict(env, exc=exc, g=self.ghost_view(st), old=old)
             if entry.when is not None:
@@ -518,7 +527,7 @@ class Verifier:
                 self.emit(st, "xpost", "when-" + cname, t)
             for e in entry.post:
                 t = self.eval_clause(st, e, spec_env)
-                self.emit(st, "xpost", cname + "." + e.__name__, t)
+                self.emit(st, "xpost", cname + "." + e.__name__, t, serves=getattr(e, "_serves", None))
             return
         raise Unsupported("break/continue at function level")
 
@@ -589,7 +598,7 @@ class Verifier:
         caller = self.cur
         for r in cls.requires:
             t = self.eval_clause(st, r, spec_env)
-            self.emit(st, "pre", "%s.%s" % (cls.qualname, r.__name__), t)
+            self.emit(st, "pre", "%s.%s" % (cls.qualname, r.__name__), t, serves=getattr(r, "_serves", None))
             st.assume(t)
         # caller-side assertions attached to this call site by the caller's contract
         if caller is not None and len(st.frames) >= 1:
@@ -758,22 +767,35 @@ class Verifier:
                 fr.locals[nm] = v
         for inv in invs:
             self.emit(st, "inv-init", "%s.%s" % (label, inv.__name__), self.eval_clause(st, inv, env_of(st)))
-        # 2. havoc
-        names = self.assigned_names(node.body + ([node] if False else []))
+        # 2. havoc (a ONEOF declaration forks the arbitrary iteration)
+        names = self.assigned_names(node.body)
         if is_for:
             for x in ast.walk(node.target):
                 if isinstance(x, ast.Name) and x.id not in names:
                     names.append(x.id)
         decl = cls.loop_locals.get(ordinal, {})
+        states = [st]
         for nm in names:
-            if nm in decl:
-                (st, v), = list(self.make(st, decl[nm], nm))
-                fr = st.frames[-1]
-                fr.locals[nm] = v
-            elif nm in fr.locals:
-                cur = fr.locals[nm]
-                fr.locals[nm] = self.havoc_like(st, cur, nm)
-            # else: first bound inside the loop and not declared: stays unbound
+            nxt = []
+            for s0 in states:
+                fr0 = s0.frames[-1]
+                if nm in decl:
+                    for s1, v in self.make(s0, decl[nm], nm):
+                        s1.frames[-1].locals[nm] = v
+                        nxt.append(s1)
+                else:
+                    if nm in fr0.locals:
+                        fr0.locals[nm] = self.havoc_like(s0, fr0.locals[nm], nm)
+                    nxt.append(s0)
+            states = nxt
+        outs_all = []
+        for s0 in states:
+            outs_all.extend(self._loop_iteration(ip, s0, node, cls, ordinal, invs, is_for, idx_name, elem_of, n_term,
+                                                 env_of, label, old))
+        return outs_all
+
+    def _loop_iteration(self, ip, st, node, cls, ordinal, invs, is_for, idx_name, elem_of, n_term, env_of, label, old):
+        fr = st.frames[-1]
         if self.loop_touches_ghost(node, st):
             self.havoc_ghost(st, cls)
         for fld, sp in getattr(cls, "loop_modifies_self", {}).get(ordinal, {}).items():
